@@ -13,7 +13,7 @@ package run
 //vf:opt C16 preempt=1 thorough_preempt=2 delaybound=1 thorough_maxpaths=2000000
 //vf:opt C06 delaybound=1 preempt=1
 //vf:stub C16 source connection: model source answering INFO keyspace, SELECT, pipelined DUMP/PTTL from a keyspace chosen by the harness (payloads symbolic, keys may have vanished); scanner.NewScanner: harness scanner returning the pages of the selected database (the SCAN reply parsing uses reflection and is outside); utils.StartQoS: always-ready bucket; time.NewTicker: fed by the harness; target connections: two model-target connections sharing one keyspace
-//vf:assume C16 source histories are monotone: a key absent at DUMP is absent at PTTL; the target is empty at start
+//vf:assume C16 source histories are monotone: a key absent at DUMP is absent at PTTL (a key present at DUMP may be gone at PTTL: it must be skipped); the target is empty at start
 //vf:outside C16 Aliyun/Tencent scanners; QoS timing; statistics; pre-existing target keys; two pages with more than one deviation from round-robin scheduling (the thorough tier runs two pages with delay bound 1 and one page with delay bound 2)
 
 import (
@@ -29,6 +29,7 @@ type vfSrcKey struct {
 	name string
 	dump []byte // nil = vanished before DUMP
 	pttl int64
+	late bool // expired or deleted between the DUMP and the PTTL reply: PTTL answers -2
 	big  bool
 }
 
@@ -62,7 +63,7 @@ func (s *vfSource) Send(cmd string, args ...interface{}) error {
 		}
 	case "PTTL":
 		k := s.lookup(args[0].(string))
-		if k == nil || k.dump == nil {
+		if k == nil || k.dump == nil || k.late {
 			s.pend = append(s.pend, int64(-2))
 		} else {
 			s.pend = append(s.pend, k.pttl)
@@ -164,9 +165,15 @@ func VF_C16_Rump() {
 		k := vfSrcKey{name: name}
 		state := 1
 		if cfgIx != 5 {
-			state = vfPick("state", 3)
+			ns := 3
+			if (cfgIx == 0 || cfgIx == 4) && pages == 1 {
+				ns = 4 // the late-vanish state only in the plain and the big-key configuration (path budget)
+			}
+			state = vfPick("state", ns)
 		}
 		switch state {
+		case 3: // still there at DUMP, expired or deleted before PTTL is answered
+			k.pttl, k.late = 1, true
 		case 0: // vanished between SCAN and DUMP
 			k.dump, k.pttl = nil, -2
 		case 1: // no expiry
@@ -242,7 +249,7 @@ func VF_C16_Rump() {
 				if keyBlack != nil {
 					pass = vfAnd(pass, vfNot(vfHasPrefix(k.name, keyBlack[0])))
 				}
-				exists := k.dump != nil
+				exists := k.dump != nil && !k.late
 				_, tk := tgt.find(wantDb, []byte(k.name))
 				if !exists {
 					vfAssert(tk == nil, "a key that vanished on the source appeared on the target")
